@@ -22,6 +22,15 @@ Decides, from the MIR of the current tree:
              back with the original                                                            (F23, known finding)
   ENUM       ... the symbol -> index table holds one index per symbol (duplicate symbol => Err at freeze: F43)
   POOLCLEAN  pooled scratch buffers come back empty (shared with C13 / C14: a stale buffer prefixes a later Ok encoding)
+  RANGE      a failed narrowing of the *value* is never replaced by a default (saturation reaches the decimal branches,
+             which have no range check of their own); saturating a bound of the schema, or a length hint, is legal
+  BLOCKS     the first block header is written whenever a count is stored (`min_len > 0`, nothing stricter); both
+             spellings of the per-element countdown are read (checked_sub / `if n > 0 { n -= 1 }`)
+  MAPKIND    a map entry is step, key, value in every presentation (serialize_key = step + key, serialize_value = value
+             only, serialize_entry / struct field = step, key, value)
+  DECSCALE   ... the sign scans advance byte by byte; the step back (keep one byte) only from a non-zero position and
+             per sign; a fixed wider than 16 bytes is sign-extended one byte per position; the fit check looks at
+             buf[0..start+1]; a fixed of size 0 holds only zero
 It does NOT decide byte equality with a reference encoder.
 """
 from ..lib import *
